@@ -1077,6 +1077,55 @@ class SoloLock(object):
         self.release()
 
 
+import threading as _REAL_THREADING     # noqa: E402 (the real module)
+
+
+class LazyLock(object):
+    """A lock created while no simulation is running (at import time, in a
+    class body, as a default argument ...): it may live for the whole
+    process, so what it IS is decided per run, at the first use in that run:
+    the scheduler's lock under ThreadSim, the deadlock-detecting SoloLock
+    under NetSim, a real lock outside."""
+
+    def __init__(self, reentrant=False):
+        self.reentrant = reentrant
+        self._real = _REAL_THREADING.RLock() if reentrant \
+            else _REAL_THREADING.Lock()
+        self._world = None
+        self._impl = None
+
+    def _get(self):
+        w = CURRENT
+        if w is None:
+            return self._real
+        if self._world is None or self._world() is not w:
+            self._world = weakref.ref(w)
+            if w.sched is not None:
+                self._impl = w.sched.make_lock(self.reentrant)
+            elif self.reentrant:
+                self._impl = _REAL_THREADING.RLock()
+            else:
+                self._impl = SoloLock()
+            w.probe('process_wide_lock_used')
+        return self._impl
+
+    def acquire(self, *a, **kw):
+        return self._get().acquire(*a, **kw)
+
+    def release(self):
+        return self._get().release()
+
+    def locked(self):
+        return self._get().locked()
+
+    def __enter__(self):
+        self._get().acquire()
+        return self
+
+    def __exit__(self, *a):
+        self._get().release()
+
+
 class _ThreadingNS(object):
     """lomond.session.threading: Lock() is the simulator's lock while a
     ThreadSim scheduler is active, a real lock otherwise."""
@@ -1089,14 +1138,16 @@ class _ThreadingNS(object):
             return w.sched.make_lock()
         if w is not None:
             return SoloLock()
-        return _ThreadingNS._real.Lock()
+        return LazyLock()
 
     @staticmethod
     def RLock():
         w = CURRENT
         if w is not None and w.sched is not None:
             return w.sched.make_lock(reentrant=True)
-        return _ThreadingNS._real.RLock()
+        if w is not None:
+            return _ThreadingNS._real.RLock()
+        return LazyLock(reentrant=True)
 
     Event = _real.Event
     Thread = _real.Thread
@@ -1105,6 +1156,33 @@ class _ThreadingNS(object):
     local = _real.local
     current_thread = staticmethod(_real.current_thread)
     get_ident = staticmethod(_real.get_ident)
+
+
+def threading_proxy():
+    """A stand-in for the `threading` module, put into sys.modules while the
+    lomond package is imported (bootstrap.setup): locks lomond creates at
+    import time (class bodies, module globals, default arguments) become
+    LazyLocks; everything else is the real module."""
+    import sys
+    import types
+    m = types.ModuleType('threading')
+    m.__dict__.update(_REAL_THREADING.__dict__)
+
+    def _from_lomond():
+        f = sys._getframe(2)
+        return f.f_globals.get('__name__', '').split('.')[0] == 'lomond'
+
+    def Lock():
+        return _ThreadingNS.Lock() if _from_lomond() \
+            else _REAL_THREADING.Lock()
+
+    def RLock():
+        return _ThreadingNS.RLock() if _from_lomond() \
+            else _REAL_THREADING.RLock()
+    m.Lock = Lock
+    m.RLock = RLock
+    m._verif_proxy = True
+    return m
 
 
 def _random():
@@ -1161,7 +1239,8 @@ def install():
             m = importlib.import_module('lomond.' + mi.name)
         except Exception:
             continue
-        if getattr(m, 'threading', None) is _rt:
+        if getattr(m, 'threading', None) is _rt or getattr(
+                getattr(m, 'threading', None), '_verif_proxy', False):
             m.threading = _ThreadingNS
         if getattr(m, 'Lock', None) is _rt.Lock:
             m.Lock = _ThreadingNS.Lock
